@@ -4,6 +4,7 @@ package main
 
 import (
 	"fmt"
+	"runtime"
 	"go/token"
 	"go/types"
 
@@ -15,6 +16,10 @@ func (br *bodyRun) step(st *State, ins ssa.Instruction, b *ssa.BasicBlock, idx i
 	if fc.light {
 		defer func() {
 			if r := recover(); r != nil {
+				if te, isTE := r.(*runtime.TypeAssertionError); isTE {
+					// a value abstracted earlier has no structure: abstract this instruction too
+					r = unsupported("operand was abstracted: " + te.Error())
+				}
 				if u, ok := r.(unsupported); ok {
 					// light mode: abstract the instruction
 					fc.note("light mode: %s abstracted (%s)", insName(ins), string(u))
